@@ -14,12 +14,19 @@
 package metadata
 
 import (
+	"errors"
+	"fmt"
 	"regexp"
 
 	"github.com/uber/kraken/core"
 )
 
 const _torrentMetaSuffix = "_torrentmeta"
+
+// ErrCorruptTorrentMeta is returned by Deserialize when the stored bytes are not
+// a serialized MetaInfo, e.g. because the process died between the creation of
+// the metadata file and the write of its content.
+var ErrCorruptTorrentMeta = errors.New("corrupt torrent meta")
 
 func init() {
 	Register(regexp.MustCompile(_torrentMetaSuffix), &torrentMetaFactory{})
@@ -60,7 +67,7 @@ func (m *TorrentMeta) Serialize() ([]byte, error) {
 func (m *TorrentMeta) Deserialize(b []byte) error {
 	mi, err := core.DeserializeMetaInfo(b)
 	if err != nil {
-		return err
+		return fmt.Errorf("%w: %s", ErrCorruptTorrentMeta, err)
 	}
 	m.MetaInfo = mi
 	return nil
